@@ -458,8 +458,8 @@ Theorem inva_core s i : InvA s -> enabled s i = true -> InvA (cstep s i).
 Proof.
   intros I EN. unfold cstep, core. unfold enabled in EN.
   destruct (nth_error (thrs s) i) as [p|] eqn:H; [|discriminate].
-  destruct p as [prog| | | | | |l k r|l r|l r|r|q r| |l q f a|l q a|a].
-  - destruct prog as [|[l k b| |] r].
+  destruct p as [prog| | | | | |l k r|l r|l r|r|q r|wl r| |l q f a|l q a|a].
+  - destruct prog as [|[l k b| | |wl] r].
     + cbn [fst]. apply (inva_with_thr s i _ (CAt []) I H). intros c. apply next_client_q.
     + pose proof (inva_enqueue s i l k b (next_client i r) (CAt (OSub l k b :: r)) I H) as E.
       destruct (enqueue s i l k b) as [s1 e]. cbn [fst] in *. apply E; [reflexivity|]. intros c. apply next_client_q.
@@ -468,6 +468,7 @@ Proof.
     + assert (I' : InvA (with_ext s i r)) by (apply (inva_ext s); auto).
       pose proof (inva_worker_cs (with_ext s i r) i (CAt (OWorker :: r)) I' H) as E.
       destruct (worker_cs (with_ext s i r) i) as [s1 e]. cbn [fst] in *. apply E. reflexivity.
+    + cbn [fst]. apply (inva_with_thr s i _ (CAt (OWait wl :: r)) I H). intros c. apply next_client_q.
   - cbn [fst]. apply (inva_with_thr s i _ CXWait I H). reflexivity.
   - pose proof (inva_stop_mark s i ADtor _ I H) as E.
     destruct (stop_mark s i ADtor) as [s1 e]. cbn [fst] in *. apply E. reflexivity.
@@ -488,6 +489,7 @@ Proof.
   - pose proof (inva_stop_mark s i (AWorker false r) _ I H) as E.
     destruct (stop_mark s i (AWorker false r)) as [s1 e]. cbn [fst] in *. apply E. reflexivity.
   - cbn [fst]. apply (inva_with_thr s i _ (WQry q r) I H). intros c. apply job_next_q.
+  - cbn [fst]. apply (inva_with_thr s i _ (WWait wl r) I H). intros c. apply job_next_q.
   - discriminate.
   - assert (SE : InvA (fst (stop_end s i q f a))).
     { apply (inva_stop_end s i q f a (Join l q f a)); [exact H| |exact (a_canc s I)].
@@ -1026,10 +1028,10 @@ Proof.
   intros B EN. unfold cstep, core. unfold enabled in EN.
   destruct (nth_error (thrs s) i) as [p|] eqn:H; [|discriminate].
   pose proof (b_class s B i p H) as [CL1 CL2].
-  destruct p as [prog| | | | | |l k r|l r|l r|r|q r| |l q f a|l q a|a].
+  destruct p as [prog| | | | | |l k r|l r|l r|r|q r|wl r| |l q f a|l q a|a].
   - (* client operation *)
     assert (LT : i < nclients s) by (apply (client_lt s i _ B H); reflexivity).
-    destruct prog as [|[l k b| |] r].
+    destruct prog as [|[l k b| | |wl] r].
     + cbn [fst]. destruct (next_client_plain i []) as (X1 & X2 & X3).
       apply (invb_plain s i _ (CAt []) B H); auto; try lia. rewrite next_client_client. discriminate.
     + pose proof (invb_enqueue s i l k b (next_client i r) _ B H) as E.
@@ -1040,6 +1042,8 @@ Proof.
     + pose proof (invb_worker_cs s (with_ext s i r) i _ B H) as E.
       destruct (worker_cs (with_ext s i r) i) as [s1 e]. cbn [fst] in *.
       apply E; auto; unfold with_ext; cbn [extw]; intros; try (right; assumption); left; reflexivity.
+    + cbn [fst]. destruct (next_client_plain i r) as (X1 & X2 & X3).
+      apply (invb_plain s i _ (CAt (OWait wl :: r)) B H); auto; try lia. rewrite next_client_client. discriminate.
   - cbn [fst]. apply (invb_plain s i CDtor CXWait B H); auto; try discriminate.
   - pose proof (invb_stop_mark s i ADtor _ B H) as E.
     destruct (stop_mark s i ADtor) as [s1 e]. cbn [fst] in *. apply E; auto.
@@ -1064,6 +1068,8 @@ Proof.
     destruct (stop_mark s i (AWorker false r)) as [s1 e]. cbn [fst] in *. apply E; auto.
   - cbn [fst]. destruct (job_next_plain r) as (J1 & J2 & J3 & J4).
     apply (invb_plain s i _ (WQry q r) B H); auto.
+  - cbn [fst]. destruct (job_next_plain r) as (J1 & J2 & J3 & J4).
+    apply (invb_plain s i _ (WWait wl r) B H); auto.
   - discriminate.
   - (* join loop *)
     assert (EXT : exit_ s = true) by (apply (b_join s B i _ H); reflexivity).
@@ -1548,8 +1554,8 @@ Proof.
   unfold cstep, core. unfold enabled in EN. unfold T in H0. rewrite H0 in *.
   assert (H : T s i = Some p0) by exact H0.
   pose proof (b_class s B i p0 H) as [CL1 CL2].
-  destruct p0 as [prog| | | | | |l k r|l r|l r|r|q r| |l q f a|l q a|a].
-  - destruct prog as [|[l k b| |] r].
+  destruct p0 as [prog| | | | | |l k r|l r|l r|r|q r|wl r| |l q f a|l q a|a].
+  - destruct prog as [|[l k b| | |wl] r].
     + cbn [fst]. destruct (next_client_dtor i []) as (X1 & X2 & X3).
       apply (invu_move s i _ (CAt []) U H UF); auto. intros _ X. congruence.
     + pose proof (invu_enqueue s i l k b (next_client i r) _ U H UF) as E.
@@ -1559,6 +1565,8 @@ Proof.
       intros L. exfalso. specialize (CL1 L). discriminate.
     + pose proof (invu_worker_cs s (with_ext s i r) i _ U H UF) as E.
       destruct (worker_cs (with_ext s i r) i) as [s1 e]. cbn [fst] in *. apply E; reflexivity.
+    + cbn [fst]. destruct (next_client_dtor i r) as (X1 & X2 & X3).
+      apply (invu_move s i _ (CAt (OWait wl :: r)) U H UF); auto. intros _ X. congruence.
   - cbn [fst]. apply (invu_move s i CDtor CXWait U H UF); auto.
     intros _ _. right. apply (xwait_others s B U EN).
   - pose proof (invu_stop_mark s i ADtor _ B U H UF) as E.
@@ -1584,6 +1592,10 @@ Proof.
   - cbn [fst]. destruct (job_next_dtor r) as (X1 & X2).
     assert (DP : dtor_phase (job_next r) = false) by (destruct r as [|[] r]; reflexivity).
     apply (invu_move s i _ (WQry q r) U H UF); auto; try (rewrite X2; discriminate).
+    intros _ X; congruence.
+  - cbn [fst]. destruct (job_next_dtor r) as (X1 & X2).
+    assert (DP : dtor_phase (job_next r) = false) by (destruct r as [|[] r]; reflexivity).
+    apply (invu_move s i _ (WWait wl r) U H UF); auto; try (rewrite X2; discriminate).
     intros _ X; congruence.
   - discriminate.
   - (* join loop *)
